@@ -205,7 +205,7 @@ def annotate(rng, lines):
 def run(tier):
     rep = Report("C17", tier)
     s = seed()
-    n = 600 if tier == "quick" else 20000
+    n = 600 if tier == "quick" else common.tscale(20000)
     cases, kinds = [], {}
     for i in range(n):
         rng = random.Random("%d/c17/%d" % (s, i))
